@@ -382,6 +382,10 @@ def mk_atmo(**kw):
     return Atmo(**kw)
 
 
+def mk_icao(**kw):
+    return Atmo.icao(**kw)
+
+
 def mk_wind(**kw):
     return Wind(**kw)
 
@@ -422,6 +426,20 @@ def bare_vs_quantity(ctor, pname, slot, unit, x):
     b = ctor(**{pname: unit(x)})
     setattr(PreferredUnits, slot, saved)
     return (a, b)
+
+
+def bare_under_two_settings(ctor, pname, slot, unit_a, unit_b, x):
+    """history: the same bare number x given under two successive preferred-unit settings in one process, next to the
+    explicit quantities it must mean (the setting in force at each call decides, not the one seen first)"""
+    saved = getattr(PreferredUnits, slot)
+    setattr(PreferredUnits, slot, unit_a)
+    a1 = ctor(**{pname: x})
+    b1 = ctor(**{pname: unit_a(x)})
+    setattr(PreferredUnits, slot, unit_b)
+    a2 = ctor(**{pname: x})
+    b2 = ctor(**{pname: unit_b(x)})
+    setattr(PreferredUnits, slot, saved)
+    return (a1, b1, a2, b2)
 
 
 def quantity_under_two_settings(ctor, pname, slot, unit_a, unit_b, q):
@@ -577,3 +595,10 @@ def step_of_a_configuration_created_before_the_setter(v):
     after = c.max_calc_step_size_feet
     reset_globals()
     return (before, after)
+
+
+# ---------------------------------------------------------------------------------------
+# C17: "the atmosphere's powder temperature (air temperature unless given)"
+def atmo_powder_temperature(temperature, powder_t):
+    """the real constructor: an atmosphere built with the given air temperature and (optional) powder temperature"""
+    return Atmo(temperature=temperature, powder_t=powder_t)
